@@ -14,7 +14,7 @@ LEVEL = "exploration"
 RULE = (
     "Hypothesis draws products with 1..8 images over distinct (polarisation, scan) pairs (one "
     "processing-method letter per product; non-ScanSAR products use the 4 polarisations), in any "
-    "image order, with / without map-projection record, summary lines shuffled or not; every "
+    "image order, with / without map-projection record, summary lines shuffled or not, opened directly or (one third of the cases) re-opened from index caches written by a first open; every "
     "image has its own geometry, pixels and per-line metadata (from the value seed). Oracle: root "
     "children exactly {summary, metadata, imagery}; /imagery children == the expected names in "
     "summary (key) order; each group's pixels (bit-exact) and line metadata (full model) are "
@@ -44,6 +44,8 @@ def cases(draw):
         "leader": {"map_projection": draw(st.booleans()), "designator": draw(st.sampled_from(product.DESIGNATORS))},
         "shuffle_summary": draw(st.one_of(st.none(), st.integers(0, 10**6))),
         "rpc": draw(st.sampled_from([1, 2, 1024])),
+        # the tree assembled from index caches (written by a first open) must be the same tree
+        "via_cache": draw(st.sampled_from([False, False, True])),
         "vseed": draw(st.integers(0, 2**32 - 1)),
     }
 
@@ -60,6 +62,8 @@ def classify(case):
         labels.append("scansar")
     if case["shuffle_summary"] is not None:
         labels.append("shuffled-summary")
+    if case.get("via_cache"):
+        labels.append("via-cache")
     return n >= 2, labels
 
 
@@ -72,13 +76,30 @@ def run_case(case):
         spec["summary_entries"] = entries
     files, info = product.build_product(spec)
     out = []
-    with harness.Materialised(files, "memory") as prod:
-        tree, err = harness.guard(harness.open_tree, prod.url, use_cache=False, records_per_chunk=case["rpc"])
-        if err is not None:
-            return [harness.disc("exception", "open_alos2", "a tree", harness.exc_text(err))]
-        flat, err = harness.guard(harness.flatten, tree)
-        if err is not None:
-            return [harness.disc("exception", "flatten", "loadable tree", harness.exc_text(err))]
+    via_cache = case.get("via_cache", False)
+    with harness.Materialised(files, "local" if via_cache else "memory") as prod:
+        try:
+            if via_cache:
+                _, err = harness.guard(harness.open_tree, prod.url, create_cache=True, use_cache=False, records_per_chunk=1024)
+                if err is not None:
+                    return [harness.disc("exception", "open_alos2(create_cache=True)", "a tree", harness.exc_text(err))]
+                tree, err = harness.guard(harness.open_tree, prod.url, records_per_chunk=case["rpc"])
+            else:
+                tree, err = harness.guard(harness.open_tree, prod.url, use_cache=False, records_per_chunk=case["rpc"])
+            if err is not None:
+                return [harness.disc("exception", "open_alos2", "a tree", harness.exc_text(err))]
+            flat, err = harness.guard(harness.flatten, tree)
+            if err is not None:
+                return [harness.disc("exception", "flatten", "loadable tree", harness.exc_text(err))]
+        finally:
+            if via_cache:
+                from vf.props import c07
+
+                for name in info["names"]["sar_imagery"]:
+                    p = c07.user_index_path(prod.url, name)
+                    p.unlink(missing_ok=True)
+                    if p.parent.exists() and not any(p.parent.iterdir()):
+                        p.parent.rmdir()
     if flat.get("//") != ["summary", "metadata", "imagery"] and sorted(flat.get("//", [])) != ["imagery", "metadata", "summary"]:
         out.append(harness.disc("root-children", "/", ["summary", "metadata", "imagery"], flat.get("//")))
     want_names = common.group_names(spec)
